@@ -468,4 +468,136 @@ theorem C05_wiring :
     Sso.Generated.skel_sessions_ExtendDeadline =
       ["call:Now", "call:Add", "call:Truncate", "return"] := by decide
 
+/-! ### The history-defined episode start, spelled out -/
+
+/-- the episode start after a whole list of (outcome, time) pairs -/
+def epFold : Option Int → List (CheckOutcome × Int) → Option Int
+  | ep, [] => ep
+  | ep, (o, t) :: rest => epFold (episodeAfter ep o t) rest
+
+/-- **What the history-defined episode start means.** If after a sequence of checks the episode start is `g`, then either it
+was `g` before and every check since was grace-served or not due, or there is a point in the sequence where a check at time
+`g` was grace-served *with no episode open*, and every check after it was grace-served or not due — no confirmation, no
+refusal in between. -/
+theorem episode_meaning (ep0 : Option Int) (l : List (CheckOutcome × Int)) (g : Int) (h : epFold ep0 l = some g) :
+    (ep0 = some g ∧ ∀ x ∈ l, x.1 = .grace ∨ x.1 = .noCheck) ∨
+    (∃ pre post, l = pre ++ (.grace, g) :: post ∧ epFold ep0 pre = none ∧ ∀ x ∈ post, x.1 = .grace ∨ x.1 = .noCheck) := by
+  induction l generalizing ep0 with
+  | nil => left; exact ⟨by simpa [epFold] using h, by simp⟩
+  | cons x rest ih =>
+    obtain ⟨o, t⟩ := x
+    simp only [epFold] at h
+    rcases ih _ h with ⟨h1, hall⟩ | ⟨pre, post, hl, hpre, hpost⟩
+    · cases o with
+      | noCheck =>
+        left; refine ⟨by simpa [episodeAfter] using h1, ?_⟩
+        intro y hy; simp only [List.mem_cons] at hy
+        rcases hy with rfl | hy; · right; rfl
+        exact hall y hy
+      | grace =>
+        cases hep : ep0 with
+        | some g' =>
+          left
+          have : g' = g := by simpa [episodeAfter, hep] using h1
+          subst this
+          refine ⟨rfl, ?_⟩
+          intro y hy; simp only [List.mem_cons] at hy
+          rcases hy with rfl | hy; · left; rfl
+          exact hall y hy
+        | none =>
+          right
+          have : t = g := by simpa [episodeAfter, hep] using h1
+          subst this
+          exact ⟨[], rest, rfl, by simp [epFold], hall⟩
+      | confirmed => simp [episodeAfter] at h1
+      | refused => simp [episodeAfter] at h1
+    · right
+      exact ⟨(o, t) :: pre, post, by simp [hl], by simpa [epFold] using hpre, hpost⟩
+
+/-- outcome and time of one executed step of a linear history -/
+def outcomeOf (P : Policy) (x : CookieIn × Option Int × LStep) : CheckOutcome × Int :=
+  (match x.1 with | .opens s => checkOutcome P x.2.2.now x.2.2.req s x.2.2.ans | _ => .noCheck, x.2.2.now)
+
+/-- the episode component of `runL` at position `i` is the fold over the outcomes of the first `i` steps -/
+theorem runL_episode (lower : Bytes → Bytes) (P : Policy) (c : CookieIn) (ep : Option Int) (sts : List LStep) (i : Nat)
+    (x : CookieIn × Option Int × LStep) (hx : (runL lower P c ep sts)[i]? = some x) :
+    x.2.1 = epFold ep (((runL lower P c ep sts).take i).map (outcomeOf P)) := by
+  induction sts generalizing c ep i with
+  | nil => simp [runL] at hx
+  | cons st t ih =>
+    cases i with
+    | zero => simp [runL] at hx; subst hx; simp [epFold]
+    | succ k =>
+      simp only [runL, List.getElem?_cons_succ] at hx
+      have := ih _ _ k hx
+      simp only [runL, List.take_succ_cons, List.map_cons, epFold]
+      rw [this]
+      rfl
+
+/-- **C05 along histories, spelled out.** Whenever a check is grace-served at step `i` of a linear history that began with a
+fresh session, there is a step `j ≤ i` — the first failure of the current outage — that was itself grace-served with no
+episode open, such that every step strictly between `j` and `i` was grace-served or needed no check (no confirmed check,
+no refusal in between), and step `i` happens strictly less than the grace TTL after step `j`. -/
+theorem C05_grace_counts_from_first_failure (lower : Bytes → Bytes) (P : Policy) (s0 : Sess) (sts : List LStep) (h0 : s0.grace = none)
+    (i : Nat) (x : CookieIn × Option Int × LStep) (hx : (runL lower P (.opens s0) none sts)[i]? = some x)
+    (hg : (outcomeOf P x).1 = .grace) :
+    ∃ j, j ≤ i ∧ ∃ y, (runL lower P (.opens s0) none sts)[j]? = some y ∧ (outcomeOf P y).1 = .grace ∧
+      x.2.2.now < y.2.2.now + P.G ∧
+      ∀ k z, j < k → k < i → (runL lower P (.opens s0) none sts)[k]? = some z → (outcomeOf P z).1 = .grace ∨ (outcomeOf P z).1 = .noCheck := by
+  have hmem : x ∈ runL lower P (.opens s0) none sts := List.mem_of_getElem? hx
+  obtain ⟨s, hs⟩ : ∃ s, x.1 = .opens s := by
+    unfold outcomeOf at hg
+    cases hc : x.1 with
+    | opens s => exact ⟨s, rfl⟩
+    | absent => rw [hc] at hg; simp at hg
+    | junk => rw [hc] at hg; simp at hg
+  have hgs : checkOutcome P x.2.2.now x.2.2.req s x.2.2.ans = .grace := by
+    unfold outcomeOf at hg; rw [hs] at hg; exact hg
+  have hb := C05_grace_bounded_history lower P s0 sts h0 x hmem s hs hgs
+  have hep := runL_episode lower P (.opens s0) none sts i x hx
+  cases hxe : x.2.1 with
+  | none =>
+    -- this very step is the first failure
+    refine ⟨i, Nat.le_refl _, x, hx, hg, ?_, ?_⟩
+    · rw [hxe] at hb; simpa using hb
+    · intro k z h1 h2; omega
+  | some g =>
+    rw [hxe] at hep hb
+    rcases episode_meaning none _ g hep.symm with ⟨h, _⟩ | ⟨pre, post, hl, _, hpost⟩
+    · cases h
+    · -- the stamp step sits at index `pre.length` of the prefix
+      let L := runL lower P (.opens s0) none sts
+      have hlen : pre.length < i := by
+        have : ((L.take i).map (outcomeOf P)).length = (pre ++ (CheckOutcome.grace, g) :: post).length := by rw [hl]
+        simp at this
+        have h2 : (L.take i).length ≤ i := List.length_take_le _ _
+        omega
+      have hj : ((L.take i).map (outcomeOf P))[pre.length]? = some (CheckOutcome.grace, g) := by
+        rw [hl]; simp
+      obtain ⟨y, hy, hyo⟩ : ∃ y, L[pre.length]? = some y ∧ outcomeOf P y = (.grace, g) := by
+        have h1 : ((L.take i)[pre.length]?).map (outcomeOf P) = some (CheckOutcome.grace, g) := by
+          rw [← List.getElem?_map]; exact hj
+        have h2 : (L.take i)[pre.length]? = L[pre.length]? := by simp [List.getElem?_take, hlen]
+        rw [h2] at h1
+        cases hL : L[pre.length]? with
+        | none => rw [hL] at h1; simp at h1
+        | some y => rw [hL] at h1; simp at h1; exact ⟨y, rfl, h1⟩
+      refine ⟨pre.length, Nat.le_of_lt hlen, y, hy, by simp [hyo], ?_, ?_⟩
+      · have : y.2.2.now = g := by have := congrArg Prod.snd hyo; simpa [outcomeOf] using this
+        rw [this]; simpa using hb
+      · intro k z h1 h2 hz
+        have hk : ((L.take i).map (outcomeOf P))[k]? = some (outcomeOf P z) := by
+          have e1 : (L.take i)[k]? = L[k]? := by simp [List.getElem?_take, h2]
+          rw [List.getElem?_map, e1]
+          show Option.map (outcomeOf P) (L[k]?) = _
+          rw [show L[k]? = some z from hz]; rfl
+        rw [hl] at hk
+        have : (post)[k - pre.length - 1]? = some (outcomeOf P z) := by
+          rw [List.getElem?_append_right (by omega)] at hk
+          have : k - pre.length = (k - pre.length - 1) + 1 := by omega
+          rw [this, List.getElem?_cons_succ] at hk
+          exact hk
+        exact hpost _ (List.mem_of_getElem? this)
+
+
 end Sso.Proxy
